@@ -4,6 +4,7 @@ CONSTANTS
   MaxSize = 200
   OpsUniverse <- U_ops
   Mirror = TRUE
+  ShareMemo = FALSE
   MaxOps = 3
 INVARIANT OpsAligned
 INVARIANT OpsLookup
